@@ -177,6 +177,63 @@ func init() {
 				}
 			}
 		}},
+		{"Broker", func() func() []method {
+			opts := pubsub.BrokerOptions{BufferSize: simrt.Choose(2), ParallelDispatch: simrt.Choose(2) == 1, WorkerPoolSize: 1 + simrt.Choose(2)}
+			var b *pubsub.Broker[int]
+			bctx := context.Background()
+			switch simrt.Choose(4) {
+			case 0:
+				b = pubsub.NewBroker[int](bctx, opts)
+			case 1:
+				b = pubsub.NewQueueBroker[int](bctx, pubsub.NewUnlimitedQueue[int](), opts)
+			case 2:
+				b = pubsub.NewDequeBroker[int](bctx, pubsub.NewUnlimitedDeque[int](), opts)
+			default:
+				b = pubsub.NewLIFOBroker[int](bctx, opts, 2)
+			}
+			return func() []method {
+				var mine []chan int
+				return []method{
+					{"Publish", func(ctx context.Context, a int) { b.Publish(ctx, a) }},
+					{"Publish", func(ctx context.Context, a int) { b.Publish(ctx, a) }},
+					{"Subscribe", func(ctx context.Context, a int) {
+						if ch := b.Subscribe(ctx); ch != nil {
+							mine = append(mine, ch)
+						}
+					}},
+					{"receive", func(ctx context.Context, a int) {
+						if len(mine) > 0 {
+							t := simrt.Pre("harness:select")
+							select {
+							case <-mine[0]:
+							case <-ctx.Done():
+							}
+							simrt.Post(t)
+						}
+					}},
+					{"Unsubscribe", func(ctx context.Context, a int) {
+						if len(mine) > 0 {
+							b.Unsubscribe(ctx, mine[0])
+							mine = mine[1:]
+						}
+					}},
+					{"Stats", func(ctx context.Context, a int) { b.Stats(ctx) }},
+					{"Stop", func(ctx context.Context, a int) {
+						if a == 1 {
+							b.Stop()
+						} else {
+							b.Stats(ctx)
+						}
+					}},
+					{"Wait", func(ctx context.Context, a int) {
+						wctx, cancel := context.WithCancel(ctx)
+						simrt.Spawn("wait-cancel", func() { simrt.WaitStep(simrt.Stamp() + 30); cancel() })
+						b.Wait(wctx)
+						cancel()
+					}},
+				}
+			}
+		}},
 		{"WaitGroup", func() func() []method {
 			wg := &fun.WaitGroup{}
 			return func() []method {
